@@ -166,13 +166,30 @@ scan_ints(const char *s, long long v[], int maxv, char *sk, size_t sksz)
 	return n;
 }
 
-/* judge one output; returns 0 if it agrees, else fills EXP */
+/* judge one output; returns 0 if it agrees, else fills EXP.
+ * Epoch sources denote date-times (midnight UTC): the calendar outputs then
+ * carry a T00:00:00 and the day numbers a .000000, which is stripped first. */
 static int
-judge(const struct out_s *o, const struct rc_day *p, const char *got, char *exp, size_t esz)
+judge(const struct out_s *o, const struct rc_day *p, const char *got0, char *exp, size_t esz, int epoch_src)
 {
 	long long v[8];
 	char sk[16];
+	char gotb[128];
+	const char *got = got0;
 	int n;
+
+	if (epoch_src) {
+		size_t l = strlen(got0);
+		const char *suf = (o->kind == K_INT || o->kind == K_JDN) ? ".000000" : "T00:00:00";
+		size_t sl = strlen(suf);
+		if (o->kind <= K_YMCW || ((o->kind == K_INT) && (o->field == F_LDN || o->field == F_MDN))) {
+			if (l >= sl && l < sizeof(gotb) && !strcmp(got0 + l - sl, suf)) {
+				memcpy(gotb, got0, l - sl);
+				gotb[l - sl] = '\0';
+				got = gotb;
+			}
+		}
+	}
 
 	switch (o->kind) {
 	case K_YMD:
@@ -260,12 +277,13 @@ do_day_src(const struct rc_day *p, int s, int only_out, int replay)
 	src_text(s, p, text, sizeof(text));
 	v = dt_strpdt(text, src_fmt[s], &ep);
 	++*c_eval;
-	if (dt_unk_p(v) || ep == NULL || *ep != '\0') {
+	/* whether the whole text is consumed is C09's business, not C01's */
+	if (dt_unk_p(v)) {
 		snprintf(key, sizeof(key), "parse src=%s", src_name[s]);
 		snprintf(cas, sizeof(cas), "%d -1 %d", s, p->rd);
 		mk_cmd(cmd, sizeof(cmd), s, text, "%F");
-		ex_viol(key, p->rd, cas, cmd, "day %04d-%02d-%02d: source text '%s' (%s) is not accepted or not consumed (rest '%s')",
-			p->y, p->m, p->d, text, src_name[s], ep ? ep : "(null)");
+		ex_viol(key, p->rd, cas, cmd, "day %04d-%02d-%02d: source text '%s' (%s) is not accepted by the parser",
+			p->y, p->m, p->d, text, src_name[s]);
 		if (replay) {
 			printf("  source text '%s' rejected\n", text);
 		}
@@ -288,7 +306,7 @@ do_day_src(const struct rc_day *p, int s, int only_out, int replay)
 		++*c_trans;
 		(void)n;
 		ex_outcome(ex_hash_mix(ex_hash(got, strlen(got)), (uint64_t)o));
-		if (judge(outs + o, p, got, exp, sizeof(exp))) {
+		if (judge(outs + o, p, got, exp, sizeof(exp), s == S_AT || s == S_EPS)) {
 			bad++;
 			snprintf(key, sizeof(key), "conv src=%s out=%s", src_name[s], outs[o].fmt);
 			snprintf(cas, sizeof(cas), "%d %d %d", s, o, p->rd);
@@ -335,7 +353,7 @@ do_binding(int k)
 	const char *rundir = getenv("VERIF_RUNDIR");
 	const struct bind_s *b = binds + k;
 	FILE *f;
-	int rd, nlines = 0, rc;
+	int rd, rd0, nlines = 0, rc;
 	EX_CTR(c_bind, "cli_binding_replays");
 	EX_CTR(c_bindln, "cli_binding_lines");
 
@@ -347,7 +365,10 @@ do_binding(int k)
 	if ((f = fopen(fin, "w")) == NULL) {
 		return;
 	}
-	for (rd = 0; rd < RC_NDAYS; rd++) {
+	/* the stdin needle for %s is a run of digits (no sign): negative epochs are
+	 * outside what the stream mode claims, so that pair starts at 1970-01-02 */
+	rd0 = b->src == S_EPS ? RC_RD_1970 + 1 : 0;
+	for (rd = rd0; rd < RC_NDAYS; rd++) {
 		src_text(b->src, rc_get(rd), text, sizeof(text));
 		fprintf(f, "%s\n", text);
 	}
@@ -367,7 +388,7 @@ do_binding(int k)
 		ex_viol(key, 0, "", cmd, "no output from the binary");
 		return;
 	}
-	for (rd = 0; rd < RC_NDAYS && fgets(line, sizeof(line), f); rd++) {
+	for (rd = rd0; rd < RC_NDAYS && fgets(line, sizeof(line), f); rd++) {
 		const struct rc_day *p = rc_get(rd);
 		struct dt_dt_s v;
 		size_t l = strlen(line);
@@ -389,8 +410,8 @@ do_binding(int k)
 		}
 	}
 	fclose(f);
-	if (nlines != RC_NDAYS) {
-		ex_viol(key, nlines, "", cmd, "binary printed %d lines for %d input lines", nlines, RC_NDAYS);
+	if (nlines != RC_NDAYS - rd0) {
+		ex_viol(key, nlines, "", cmd, "binary printed %d lines for %d input lines", nlines, RC_NDAYS - rd0);
 	}
 	unlink(fin);
 	unlink(fout);
